@@ -5,6 +5,8 @@
 package kcache
 
 import (
+	"context"
+
 	logutil "github.com/boz/go-logutil"
 	"github.com/boz/kcache/filter"
 	metav1 "k8s.io/apimachinery/pkg/apis/meta/v1"
@@ -40,3 +42,24 @@ func (v *VerifCache) Get(ns, name string) metav1.Object {
 	}
 	return nil
 }
+
+// VerifCacheActor is the cache goroutine (newCache) with its request API.
+type VerifCacheActor struct {
+	c cache
+}
+
+func NewVerifCacheActor(ctx context.Context, log logutil.Log, stopch <-chan struct{}, f filter.Filter) *VerifCacheActor {
+	return &VerifCacheActor{newCache(ctx, log, stopch, f)}
+}
+
+func (v *VerifCacheActor) Sync(list []metav1.Object) ([]Event, error) { return v.c.sync(list) }
+
+func (v *VerifCacheActor) Update(evt Event) ([]Event, error) { return v.c.update(evt) }
+
+func (v *VerifCacheActor) Refilter(list []metav1.Object, f filter.Filter) ([]Event, error) {
+	return v.c.refilter(list, f)
+}
+
+func (v *VerifCacheActor) Reader() CacheReader { return v.c }
+
+func (v *VerifCacheActor) Done() <-chan struct{} { return v.c.Done() }
